@@ -546,6 +546,10 @@ impl RefPool {
 
     /// Is `p` certified by a notar, notar-fallback or fast-final certificate held?
     pub fn parent_certified(&self, p: Blk) -> bool {
+        // genesis is certified by definition (ParentReadyTracker starts from the same premise)
+        if p.slot == 0 {
+            return p.idx == 0;
+        }
         if p.slot < self.pruned_below {
             return false;
         }
